@@ -286,7 +286,19 @@ func (s *sim) settle() {
 			w.mu.Unlock()
 			s.pendingEnt = rec
 			s.timedBlocked = false
+			boot := s.model.lastEntered == nil
 			s.model.onEntranceReq(rec.idx, re.H, re.R, re.Actions != nil)
+			if boot && !vk.Excluded(fidResign) {
+				// votes of this round recorded before the restart: the machine's votes for the round
+				if ra, err := s.aStore.inner.LoadActions(context.Background(), re.H, re.R); err == nil {
+					if ra.PrevoteSignature != "" {
+						s.model.cur.recPrevote = recordedVote{present: true, target: ra.PrevoteTarget, sig: ra.PrevoteSignature}
+					}
+					if ra.PrecommitSignature != "" {
+						s.model.cur.recPrecommit = recordedVote{present: true, target: ra.PrecommitTarget, sig: ra.PrecommitSignature}
+					}
+				}
+			}
 			if cap(re.Response) != 1 {
 				s.model.failf("harness", "entrance-response-chan", "", "response channel capacity %d", cap(re.Response))
 			}
@@ -1267,7 +1279,7 @@ func (s *sim) exec(op smOp) {
 	case "time":
 		s.opTime(op.A)
 	case "restart":
-		if s.mode == "C02" || s.mode == "C10" || s.mode == "C07" {
+		if s.mode == "C02" || s.mode == "C10" || s.mode == "C07" || s.mode == "C12" {
 			s.opRestart()
 		} else {
 			s.skip("restart-not-in-domain")
